@@ -276,6 +276,10 @@ func scLaggingSnapshot(d *Driver) {
 		scHigherTermTail(d, l)
 		return
 	}
+	if d.c.Nodes[f].Cfg.Async && len(oth) >= 2 && pct(d.r, 50) {
+		scApplyVsSnapshot(d, l, f)
+		return
+	}
 	if pct(d.r, 40) {
 		// the lagging node is the deposed leader, with an unreplicated divergent tail
 		f = l.ID
@@ -357,6 +361,74 @@ func scLaggingSnapshot(d *Driver) {
 	d.with(p, 20)
 	d.unfreeze()
 	d.with(p, 80)
+}
+
+// a configuration change is committed at follower f and handed to its (slow) apply thread; a second change
+// of the same member follows while f is cut off; the leader compacts and f is caught up by a snapshot
+// that already contains both - and only then f's apply thread gets to the first change
+func scApplyVsSnapshot(d *Driver, l *AppNode, f uint64) {
+	var x uint64
+	for _, id := range d.others(l.ID) {
+		if id != f && hasVoter(l, id) {
+			x = id
+		}
+	}
+	if x == 0 {
+		d.settle(100)
+		return
+	}
+	d.frozenApply[f] = true
+	kind := []string{"v1", "auto"}[d.r.Intn(2)]
+	if d.c.Do(Step{Act: "ProposeConfChange", Node: l.ID, Pid: d.nextPid, CC: fmt.Sprintf("%s:l%d", kind, x)}) {
+		d.nextPid++
+	}
+	// until f knows the change is committed (it sits in f's apply queue)
+	d.waitFor(60, func() bool {
+		n := d.c.up(f)
+		if n == nil {
+			return true
+		}
+		for _, m := range n.ApplyQ {
+			for _, e := range m.GetEntries() {
+				if e.GetType() != pb.EntryNormal {
+					return true
+				}
+			}
+		}
+		return false
+	})
+	d.isolate([]uint64{f})
+	if ld := d.c.up(l.ID); ld != nil && safeIsLeader(ld.RN) {
+		if d.c.Do(Step{Act: "ProposeConfChange", Node: l.ID, Pid: d.nextPid, CC: fmt.Sprintf("%s:v%d", kind, x)}) {
+			d.nextPid++
+		}
+		d.settle(40)
+		d.propose(ld, 1+d.r.Intn(2), false)
+		d.waitFor(40, func() bool {
+			st, perr := safeState(ld.RN)
+			return perr != "" || (st.Commit == st.LastIndex && st.Applied == st.Commit)
+		})
+		if _, hi := d.c.snapBounds(ld); hi > 1 {
+			if d.c.Do(Step{Act: "Snapshot", Node: ld.ID, K: hi}) {
+				d.c.Do(Step{Act: "Compact", Node: ld.ID, K: hi})
+			}
+		}
+	}
+	d.heal()
+	p := calm
+	p.Tick = 10
+	d.waitFor(60, func() bool {
+		d.reportStaleSnapshots()
+		n := d.c.up(f)
+		return n == nil || jNode(n.RN).USnap.Has || jNode(n.RN).Commit >= jNode(l.RN).Commit
+	})
+	d.with(p, 10+d.r.Intn(20))
+	d.unfreeze()
+	for k := 0; k < 6; k++ {
+		d.with(p, 20)
+		d.reportStaleSnapshots()
+	}
+	d.settle(60)
 }
 
 // three leaderships: a's uncommitted entries (term T) survive and are committed by a in term T+2,
